@@ -197,33 +197,59 @@ def replay_single(bad):
 
 
 # ----------------------------------------------------------------------------- R3: chunk size chosen by the commands
+def _module_consts(tree):
+    out = {}
+    for n in ast.walk(tree):
+        if isinstance(n, ast.Assign) and len(n.targets) == 1 and isinstance(n.targets[0], ast.Name):
+            try:
+                v = ast.literal_eval(n.value)
+            except Exception:
+                continue
+            if isinstance(v, int) and not isinstance(v, bool):
+                out[n.targets[0].id] = v
+    return out
+
+
 def r3_chunk_sites(exclude):
-    """Every `max(rate_limit // (self._concurrent * 16), 1)` site: for L >= 4 and N >= 1 the chunk size is <= L/4 (the
-    precondition of R1) and >= 1."""
+    """Every expression of repository.py that derives a transfer chunk size from the rate limit (any value assigned or
+    returned that contains `rate_limit // ...`): for L >= 4 and N >= 1 the chunk size is <= L/4 (the precondition of R1)
+    and >= 1. Unbounded integers; floor division by its defining inequalities."""
     t0 = _time.time()
     src = (REPO / 'replicat' / 'repository.py').read_text()
     tree = ast.parse(src)
+    consts = _module_consts(tree)
+    try:
+        import replicat.backends.base as _b
+        consts.setdefault('DEFAULT_STREAM_CHUNK_SIZE', _b.DEFAULT_STREAM_CHUNK_SIZE)
+    except Exception:
+        pass
     sites = []
     for n in ast.walk(tree):
-        if isinstance(n, ast.Assign) and len(n.targets) == 1 and isinstance(n.targets[0], ast.Name) and \
-                n.targets[0].id in ('upload_chunk_size', 'download_chunk_size') and 'rate_limit' in ast.unparse(n.value):
-            sites.append(n)
-    if len(sites) < 4:
-        return _res('inconclusive', f'only {len(sites)} chunk-size sites found (anchor moved?)', t0)
+        val = n.value if isinstance(n, (ast.Assign, ast.Return, ast.AnnAssign)) else None
+        if val is None:
+            continue
+        if any(isinstance(m, ast.BinOp) and isinstance(m.op, (ast.FloorDiv, ast.Div)) and 'rate_limit' in ast.unparse(m.left) for m in ast.walk(val)):
+            sites.append((n.lineno, val))
+    if not sites:
+        return _res('inconclusive', 'no expression deriving a chunk size from rate_limit found (anchor moved?)', t0)
     L, N = z3.Ints('L N')
 
     def ev(node):
-        if isinstance(node, ast.Constant):
+        if isinstance(node, ast.Constant) and isinstance(node.value, int):
             return z3.IntVal(node.value)
         if isinstance(node, ast.Name) and node.id == 'rate_limit':
             return L
+        if isinstance(node, ast.Name) and node.id in consts:
+            return z3.IntVal(consts[node.id])
         if isinstance(node, ast.Attribute) and node.attr == '_concurrent':
             return N
+        if isinstance(node, ast.Attribute) and node.attr in consts:
+            return z3.IntVal(consts[node.attr])
         if isinstance(node, ast.BinOp):
             a, b = ev(node.left), ev(node.right)
             if isinstance(node.op, ast.FloorDiv):
                 q = z3.FreshInt('q')
-                side.append(z3.And(q * b <= a, a < (q + 1) * b))   # floor division for positive divisor
+                side.append(z3.And(q * b <= a, a < (q + 1) * b))   # floor division for a positive divisor
                 side.append(b > 0)
                 return q
             if isinstance(node.op, ast.Mult):
@@ -235,21 +261,133 @@ def r3_chunk_sites(exclude):
         if isinstance(node, ast.Call) and isinstance(node.func, ast.Name) and node.func.id in ('max', 'min') and len(node.args) == 2:
             a, b = ev(node.args[0]), ev(node.args[1])
             return z3.If(a >= b, a, b) if node.func.id == 'max' else z3.If(a <= b, a, b)
+        if isinstance(node, ast.IfExp):
+            raise P.Unsupported('conditional chunk size: ' + ast.unparse(node))
         raise P.Unsupported(ast.unparse(node))
     verdicts = []
-    for s in sites:
+    for lineno, val in sites:
         side = []
-        size = ev(s.value)
+        size = ev(val)
         r, m = _check([L >= 4, N >= 1] + side + [z3.Or(4 * size > L, size < 1)])
-        verdicts.append((s.lineno, ast.unparse(s.value), r, str(m) if m is not None else ''))
+        verdicts.append((lineno, ast.unparse(val), r, {str(d): m[d].as_long() for d in m.decls() if str(d) in ('L', 'N')} if m is not None else {}))
     bad = [v for v in verdicts if v[2] != 'unsat']
     if not bad:
-        return _res('confirmed', f'{len(sites)} sites: 1 <= size <= L/4 for every L >= 4, N >= 1 (L < 4 is outside the property)', t0,
+        return _res('confirmed', f'{len(sites)} site(s): 1 <= size <= L/4 for every L >= 4, N >= 1 (L < 4 is outside the property)', t0,
                     paths=len(sites), distinct=len({v[1] for v in verdicts}), samples=[{'line': v[0], 'expr': v[1]} for v in verdicts])
     if any(v[2] == 'sat' for v in bad):
         m = bad[0]
-        return _res('refuted', f'chunk size exceeds L/4: {bad[:2]}', t0, extra={'replay': {'ok': False, 'site': m[1], 'model': m[3]}}, cex={'site': m[1], 'model': m[3]})
+        rp = replay_chunk_size(m[3].get('L', 4), m[3].get('N', 1))
+        return _res('refuted', f'chunk size exceeds L/4: {bad[:2]}', t0, extra={'replay': rp}, cex={'site': m[1], 'model': m[3]})
     return _res('inconclusive', f'solver: {bad}', t0)
+
+
+class _RecBackend:
+    """Records the chunk size each command passes to the streaming calls."""
+
+    def __init__(self):
+        self.sizes = []
+        self.objs = {}
+
+    async def exists(self, name):
+        return False
+
+    async def upload(self, name, data):
+        self.objs[name] = bytes(data)
+
+    async def upload_stream(self, name, stream, length, chunk_size=None):
+        self.sizes.append(('upload_stream', chunk_size))
+        self.objs[name] = stream.read()
+
+    async def download(self, name):
+        return self.objs[name]
+
+    async def download_stream(self, name, stream, chunk_size=None):
+        self.sizes.append(('download_stream', chunk_size))
+        stream.write(self.objs[name])
+
+    async def list_files(self, prefix=''):
+        for k in sorted(self.objs):
+            if k.startswith(prefix):
+                yield k
+
+    async def delete(self, name):
+        self.objs.pop(name, None)
+
+    async def clean(self):
+        pass
+
+    async def close(self):
+        pass
+
+
+def chunk_sizes_used(L, N):
+    """Chunk sizes the four commands really pass to the backend for rate limit L and concurrency N."""
+    import os as _os
+    import tempfile
+    import shutil
+    from vt import rt as _rt
+    R = _rt.patch_repository_for_miniloop()
+    import replicat.utils as U
+
+    class _NoLimit:
+        def __init__(self, *a, **k):
+            pass
+
+        def wrap(self, f):
+            return f
+    saved = U.RateLimitedIO
+    U.RateLimitedIO = _NoLimit
+    d = tempfile.mkdtemp(prefix='c20', dir='/verif/.work' if _os.path.isdir('/verif/.work') else None)
+    cwd = _os.getcwd()
+    try:
+        _os.chdir(d)
+        _os.mkdir('src')
+        with open('src/f.bin', 'wb') as f:
+            f.write(b'x' * 50)
+        be = _RecBackend()
+        repo = R.Repository(be, concurrent=N, cache_directory=None)
+        with _rt.silence():
+            _rt.MiniLoop().run_until_complete(repo.init(password=b'pw', settings=_rt.fast_settings(False)))
+        from pathlib import Path
+        _rt.MiniLoop().run_until_complete(repo.snapshot(paths=[Path(d, 'src')], rate_limit=L))
+        _rt.MiniLoop().run_until_complete(repo.restore(path=Path(d, 'out'), rate_limit=L))
+        _rt.MiniLoop().run_until_complete(repo.upload_objects([Path(d, 'src', 'f.bin')], rate_limit=L))
+        _rt.MiniLoop().run_until_complete(repo.download_objects(path=Path(d, 'dl'), object_prefix='src/', rate_limit=L))
+        return list(be.sizes)
+    finally:
+        U.RateLimitedIO = saved
+        _os.chdir(cwd)
+        shutil.rmtree(d, ignore_errors=True)
+
+
+def replay_chunk_size(L, N):
+    sizes = chunk_sizes_used(L, N)
+    bad = [s for s in sizes if not (1 <= s[1] and 4 * s[1] <= L)]
+    return {'ok': not bad, 'L': L, 'N': N, 'sizes': sizes[:8]}
+
+
+LPOOL = [4, 5, 7, 16, 63, 64, 100, 1000, 2048, 8191, 8192, 65536, 10 ** 6, 10 ** 9]
+NPOOL = [1, 2, 5, 16, 64]
+
+
+def r3e_commands(k: int) -> bool:
+    """The chunk size that snapshot / restore / upload_objects / download_objects actually hand to the backend for rate
+    limit L and concurrency N satisfies 1 <= size <= L/4 (observed on the real commands, whatever helper computes it).
+    pre: 0 <= k < 14 * 5
+    post: _
+    """
+    from crosshair.tracers import NoTracing
+    from vt.core import digits
+    li, ni = digits(k, [14, 5])
+    with NoTracing():
+        L, N = LPOOL[li], NPOOL[ni]
+        sizes = chunk_sizes_used(L, N)
+        tick('r3e', [L, N, sizes[:4]])
+        ops = {s[0] for s in sizes}
+        ok = ops == {'upload_stream', 'download_stream'} and len(sizes) >= 4 and all(1 <= s[1] and 4 * s[1] <= L for s in sizes)
+        if not ok and os.environ.get('VT_REPLAY'):
+            print('DETAIL:', L, N, sizes)
+        return ok
 
 
 # ----------------------------------------------------------------------------- R5: several streams on one limiter
